@@ -153,7 +153,21 @@ class Gen:
         s, toks, ls = self.src(self.cur_src)
         o = parse_opts(opts)
         if within is None:
-            it = find_item(toks, path)
+            try:
+                it = find_item(toks, path)
+            except Lost:
+                if "optional" not in o:
+                    raise
+                # `optional`: the item may legitimately be absent (a type without `impl Drop`): emit an empty method so that
+                # the contract is checked against "does nothing" -- which is what Rust does
+                self.emit("pub fn %s(&mut self)" % o.get("rename", path.split("::")[-1]), kind="spec", file=rel, line=lineno, fn=path, part="signature")
+                for ln, l in block:
+                    if not l.strip().startswith("//@"):
+                        self.emit(l, kind="spec", file=rel, line=ln, fn=path, part="ensures", tags=clause_tags(l))
+                self.emit("{ }", kind="spec", file=rel, line=lineno, fn=path, part="body")
+                self.functions.append(dict(path=path, kind="fn", file=self.cur_src, line=0, absent=True, clauses=0))
+                self.count("absent-optional")
+                return
         else:
             cands = [c for c in items_in(toks, within[0], within[1]) if c.kind == "fn" and c.name == path]
             if len(cands) != 1:
